@@ -38,8 +38,25 @@ CheckDev(r) ==
     ELSE IF ~r.others_same THEN "deviation-changed-something-else"
     ELSE "ok"
 
+\* {"chk":"devm","kind":"add"|"delete","prop":"must"|"unique","have":[values of the target, in order],
+\*  "vals":[values named by the one deviate block],"res":{..},"got":[values after loading, in order]}
+\* add: the values are added after the target's own (a value the target has already may not be added
+\* again: RFC 7950 7.20.3.2 "properties to add ... must not exist"); delete: every value must exist,
+\* the others stay in order
+SeqSet(s) == { s[i] : i \in DOMAIN s }
+CheckDevMulti(r) ==
+    LET H == SeqSet(r.have)  V == SeqSet(r.vals)
+        legal == IF r.kind = "delete" THEN V \subseteq H ELSE V \cap H = {}
+        want == IF r.kind = "delete" THEN SelectSeq(r.have, LAMBDA v : v \notin V) ELSE r.have \o r.vals
+    IN IF r.res.panic THEN "panic"
+       ELSE IF ~legal THEN (IF r.res.err \/ r.kind = "add" THEN "ok" ELSE "illegal-deviation-accepted")
+       ELSE IF r.res.err THEN "legal-deviation-rejected"
+       ELSE IF r.got # want THEN "deviated-property-wrong"
+       ELSE "ok"
+
 Check(r) == CASE r.chk = "iff" -> CheckIff(r)
               [] r.chk = "dev" -> CheckDev(r)
+              [] r.chk = "devm" -> CheckDevMulti(r)
               [] r.chk = "skip" -> "ok"
               [] OTHER -> "harness-unknown-chk"
 
